@@ -42,10 +42,11 @@ CARRIED = {
     "C07": [("C01", "solidbody", _stateful), ("C14", "loads", lambda cfg: cfg.get("item") == "pointload"), ("C08", "container", None), ("C01", "constraints_and_loads", None), ("C15", "Job.evaluate", None)],
     # C15 also: the state vector a user material's history reaches the solid body through is MaterialStrain's (C03
     # framework contract around any user material); the step / substep counters a user callback of a
-    # CharacteristicCurve receives are the C09 `curve_callback` contract; "for elastic materials the final state is
+    # CharacteristicCurve receives are the C09 `curve_callback` contract; the ramp tables themselves are built with math.linsteps
+    # (anchor file math/_math.py; C17 `tensor[group=linsteps]`); "for elastic materials the final state is
     # independent of how the load path is subdivided" needs the built-in incremental laws to add exactly the stress of the
     # strain INCREMENT to the stored stress (C03 `small_strain`: elastic update, elastic step keeps the plastic state)
-    "C15": [("C01", "solidbody", _stateful), ("C03", "small_strain_user", None), ("C03", "small_strain", None), ("C03", "composite", None), ("C09", "curve_callback", None), ("C14", "loads", lambda cfg: cfg.get("item") == "pointload"), ("C12", "handcoded", _ogden_roxburgh_pair), ("C07", "fun_items_jac_items", None), ("C01", "formitem_update", None)],
+    "C15": [("C01", "solidbody", _stateful), ("C03", "small_strain_user", None), ("C03", "small_strain", None), ("C03", "composite", None), ("C09", "curve_callback", None), ("C14", "loads", lambda cfg: cfg.get("item") == "pointload"), ("C12", "handcoded", _ogden_roxburgh_pair), ("C07", "fun_items_jac_items", None), ("C01", "formitem_update", None), ("C17", "tensor", lambda cfg: cfg.get("group") == "linsteps")],
     # solid bodies on mixed u/p/J fields are verified against StubMixedMaterial (blocks == mixed derivatives of the
     # three-field functional), follower loads against StubAreaChange (cofactor and its derivative)
     # ... and the block placement of mixed-field matrices (upper-triangle storage / full block lists) is C02 `mixed_blocks`
